@@ -130,27 +130,31 @@ def run_grouped(exe, jobs, workers=None):
     for i, j in enumerate(jobs):
         k = (id(j["ir"]), j["ep"], j["fuel"], bool(j.get("lenient")))
         if k not in groups:
-            groups[k] = []
+            groups[k] = {}
             order.append(k)
-        groups[k].append(i)
+        # the same input objects (generated programs: one input set serves every pass) on the same module are run once
+        groups[k].setdefault((tuple(id(x) for x in j["globals"]), id(j["args"])), []).append(i)
     gjobs = []
     for k in order:
-        j0 = jobs[groups[k][0]]
+        firsts = [idx[0] for idx in groups[k].values()]
+        j0 = jobs[firsts[0]]
         gjobs.append({"pass": "runs", "ir": j0["ir"], "ep": j0["ep"], "fuel": j0["fuel"], "lenient": bool(j0.get("lenient")),
-                      "inputs": [{"globals": jobs[i]["globals"], "args": jobs[i]["args"]} for i in groups[k]]})
+                      "inputs": [{"globals": jobs[i]["globals"], "args": jobs[i]["args"]} for i in firsts]})
     res = run_model_parallel(exe, gjobs, workers=workers, batch=12, cpu_per_job=12)
     out = [None] * len(jobs)
     redo = []
     for k, r in zip(order, res):
-        idx = groups[k]
-        if r.get("ok") and isinstance(r.get("results"), list) and len(r["results"]) == len(idx):
-            for i, x in zip(idx, r["results"]):
-                out[i] = x
-        elif r.get("kind") == "limit" and len(idx) > 1:
-            redo += idx
+        members = list(groups[k].values())
+        if r.get("ok") and isinstance(r.get("results"), list) and len(r["results"]) == len(members):
+            for idx, x in zip(members, r["results"]):
+                for i in idx:
+                    out[i] = x
+        elif r.get("kind") == "limit" and sum(len(idx) for idx in members) > 1:
+            redo += [i for idx in members for i in idx]
         else:
-            for i in idx:
-                out[i] = r
+            for idx in members:
+                for i in idx:
+                    out[i] = r
     if redo:
         for i, x in zip(redo, run_model_parallel(exe, [jobs[i] for i in redo], workers=workers)):
             out[i] = x
